@@ -292,6 +292,14 @@ def drive(SQRA, sysd, form, cls=None, sample=False):
             obj.get_rate_matrix(2.5 * D, 1.25 * T)   # never colder than T: the capped exponent must stay below the overflow limit
             Qr = np.asarray(obj.get_rate_matrix(D, T).todense())
             REC.check("C01.repeatable_on_one_object", np.array_equal(Qr, Qd), {"n": sysd["n"], "form": form})
+            # history: a second SQRA object built on the SAME surface and distance matrix objects but with other volumes (one geometry file,
+            # two volume files), asked right after the first; then the first object's volumes are replaced and it is asked again -
+            # every answer is judged by the monitor against the object's own current arrays
+            V2 = np.asarray(V, dtype=float) * np.random.default_rng(n + 5).uniform(0.5, 2.0, size=len(V))
+            SQRA(energies=E.copy(), volumes=V2, distances=h, surfaces=s).get_rate_matrix(D, T)
+            obj.volumes = V2[::-1].copy()
+            obj.get_rate_matrix(D, T)
+            obj.volumes = V.copy()
         dE = E[sysd["rows"]] - E[sysd["cols"]]
         if len(sysd["rows"]) > 0 and np.any(dE != 0):
             REC.nontrivial_case()
